@@ -170,6 +170,22 @@ pub fn run(key: &str, a: &[String]) -> String {
                 }
             }
         }
+        "difficulty_to_compact" => {
+            use ckb_types::{U256, utilities::difficulty_to_compact};
+            let mut b = [0u8; 32];
+            for i in 0..4 {
+                b[8 * i..8 * i + 8].copy_from_slice(&u(&a[i]).to_le_bytes());
+            }
+            format!("{}", difficulty_to_compact(U256::from_little_endian(&b).unwrap()))
+        }
+        "compact_to_difficulty" => {
+            use ckb_types::utilities::compact_to_difficulty;
+            let d = compact_to_difficulty(u(&a[0]) as u32);
+            let mut b = [0u8; 32];
+            d.into_little_endian(&mut b).unwrap();
+            let l: Vec<String> = (0..4).map(|i| u64::from_le_bytes(b[8 * i..8 * i + 8].try_into().unwrap()).to_string()).collect();
+            l.join(" ")
+        }
         "freezer_k1" => crate::freezer::k1(a),
         "freezer_k5" => crate::freezer::k5(a),
         "freezer_k2" => crate::freezer::k2(a),
